@@ -174,6 +174,21 @@ def behaviour(ratio, step, order, num_terms, length, ncols, kappa, w1, singular)
                     if not abs(out[i, c] - Ls[c]) <= allow:
                         return ('limit', 'column %d slot %d: extrapolated %r, limit %r (allowance %.3g, kappa '
                                 '%.3g)' % (c, i, out[i, c], Ls[c], allow, kappa)), calls
+        # the documented second spelling, and a single column handed over as 1-d sequence / 1-d steps
+        try:
+            o2, e2, h2 = rich.extrapolate(seq, steps)
+            calls += 1
+            if not (np.array_equal(o2, out) and np.array_equal(e2, err)):
+                return ('extrapolate-differs', 'extrapolate(sequence, steps) differs from __call__(sequence, steps)'), calls
+            if ncols == 1:
+                for name, fn in (('__call__', rich), ('extrapolate', rich.extrapolate)):
+                    o1, e1, _ = fn(seq[:, 0].copy(), steps[:, 0].copy())
+                    calls += 1
+                    if not (np.shape(o1) == (m,) and np.array_equal(np.ravel(o1), out[:, 0]) and np.array_equal(np.ravel(e1), err[:, 0])):
+                        return ('one-dimensional-sequence', '%s on the 1-d sequence gives values of shape %r = %r, the same column as '
+                                '(n, 1) array gives %r' % (name, np.shape(o1), np.ravel(o1).tolist()[:3], out[:, 0].tolist()[:3])), calls
+        except Exception as e:      # noqa: BLE001
+            return ('raised-%s:second-spelling' % type(e).__name__, 'extrapolate / 1-d call raised %s: %s' % (type(e).__name__, e)), calls
         # columns are independent: bit-identical to the column alone
         if ncols > 1:
             for c in range(ncols):
